@@ -15,7 +15,7 @@ for f in /verif/seeded/C*/patch.diff /verif/benign/N*.diff /verif/benign/B*.diff
     git reset -q
     t=$(/venv/bin/python -m pytest -q -p no:cacheprovider 2>&1 | tail -1 | cut -c1-48)
     case "$f" in */patch.diff) [ -f $(dirname $f)/patch.orig.diff ] || cp $f $(dirname $f)/patch.orig.diff;; esac
-    git diff HEAD -- hdl21 pdks > $f
+    git add -A hdl21 pdks; git diff --cached HEAD -- hdl21 pdks > $f; git reset -q
     echo "rebased $name ($t)"
   else
     echo "CONFLICT $name: $(git diff --name-only --diff-filter=U | tr '\n' ' ')"
